@@ -72,8 +72,8 @@ func joinScenario(r *Run, mode string) {
 			return []octosql.Value{intv(1 + t.Draw(keyDom)), intv(1 + t.Draw(2)), idv(prefix, i)}
 		}
 	}
-	scriptL := GenChangelog(t.Block(8*maxSteps+10), ChangelogCfg{MaxSteps: maxSteps, Watermarked: wmL, Retractions: true, Dups: true, Row: mkRow("l"), FinalWM: true})
-	scriptR := GenChangelog(t.Block(8*maxSteps+10), ChangelogCfg{MaxSteps: maxSteps, Watermarked: wmR, Retractions: true, Dups: true, Row: mkRow("r"), FinalWM: true})
+	scriptL := GenChangelog(t.Block(stepBlock*maxSteps+10), ChangelogCfg{MaxSteps: maxSteps, Watermarked: wmL, Retractions: true, Dups: true, Row: mkRow("l"), FinalWM: true})
+	scriptR := GenChangelog(t.Block(stepBlock*maxSteps+10), ChangelogCfg{MaxSteps: maxSteps, Watermarked: wmR, Retractions: true, Dups: true, Row: mkRow("r"), FinalWM: true})
 	sticky := []int{0, 50, 90}[t.Draw(3)]
 
 	attrs := map[string]string{"node": "StreamJoin", "kind": kind.String()}
